@@ -507,12 +507,14 @@ func (a *c17Audit) clean() bool {
 // tag names the known-finding class a flawed result falls under ("" = none).
 func (a *c17Audit) tag() string {
 	switch {
-	case a.twoMajors:
-		return "two-majors-no-default"
 	case len(a.belowSel) > 0 || a.inputBelow || a.promotedRaise:
 		return "roots-graph-inconsistent"
 	case len(a.ambiguous) > 0:
 		return "ambiguous-in-build-list"
+	case a.twoMajors:
+		// repaired in 8593d77 (keepImpliedDefaults); a relapse is reported under this class,
+		// which is no longer a known finding
+		return "two-majors-no-default"
 	}
 	return ""
 }
@@ -927,19 +929,27 @@ func c17ParseUniverse(code string) *c17Universe {
 	return u
 }
 
-// The universes of the theorems C17_mvs_consistent_false, C17_idem_false and
-// C17_unambiguous_false (Props/C17.lean), with the result they produce on the unchanged tree.
+// The universes of the theorems C17_mvs_consistent_false, C17_idem_false,
+// C17_two_majors_repaired and C17_sound_complete_false (Props/C17.lean), with the result they
+// produce on the current tree.
 var c17WitnessList = []struct{ name, code, want string }{
 	// t.test/m lists only t.test/a; a's packages import b/x and c/x, a requires b v0.1.0 and
 	// c v0.1.0; c v0.1.0 requires b v0.2.0.  The input file is consistent (b is not in c's
 	// pruned view); the tidied file lists b v0.1.0 although its own graph selects b v0.2.0.
 	{"roots-graph-inconsistent", "8.5@0#8.1@0=3#8.5.10>8.1.10 8.1@0=3#8.2@0=3,8.3@0=3#8.1.10>8.2.10,8.3.10|8.2@0=3#-#8.2.10>-|8.2@0=5#-#8.2.10>-|8.3@0=3#8.2@0=5#8.3.10>-",
 		"ok 8.1@0=3,8.2@0=3,8.3@0=3"},
-	// a/x is imported without a major version (resolved by "the only major of t.test/a among
-	// the roots"), a/y@v1 is reached through b's requirement on a@v1: both majors become roots,
-	// neither is marked default, and the tidied file no longer resolves a/x.
-	{"two-majors-no-default", "8.5@0#8.1@0=3,8.2@0=3#8.5.10>8.1.10,8.1.11@1 8.1@0=3#-#8.1.10>-|8.1@1=3#-#8.1.11>-|8.2@0=3#8.1@1=3#8.2.10>-",
-		"ok 8.1@0=3,8.1@1=3"},
+	// shape (c) of the same finding (witness of C17_idem_false): main lists u.test/d@v0, which
+	// requires t.test/c@v1; c's package imports "u.test/d/n/x", c requires u.test/d@v1. c becomes a
+	// root, on the tidied file its requirement brings d@v1 into the build list and a second tidy
+	// lists d@v1 instead of d@v0.
+	{"roots-graph-inconsistent-promoted", "8.5@0#9.4@0=5#8.5.10>8.3.11@1 8.3@1=7#9.4@1=7#8.3.11>9.4.6.10|9.4@0=5#8.3@1=7#9.4.6.10>-|9.4@1=7#-#9.4.6.10>-",
+		"ok 8.3@1=7,9.4@0=5"},
+	// REPAIRED (8593d77, keepImpliedDefaults): a/x is imported without a major version, a/y@v1 is
+	// reached through b's requirement on a@v1: both majors become roots and the major the
+	// unqualified import used is marked default (before the repair: no default, and the tidied
+	// file failed to load).  C17_two_majors_repaired.
+	{"two-majors-default-kept", "8.5@0#8.1@0=3,8.2@0=3#8.5.10>8.1.10,8.1.11@1 8.1@0=3#-#8.1.10>-|8.1@1=3#-#8.1.11>-|8.2@0=3#8.1@1=3#8.2.10>-",
+		"ok 8.1@0=3!,8.1@1=3"},
 	// b/x is provided by module t.test (directory b/x) and by module t.test/b, both in the
 	// build list; the roots-first lookup picks t.test and never sees the ambiguity.
 	{"ambiguous-in-build-list", "8.5@0#-#8.5.10>8.3.10@0 8@0=3#-#8.2.10>-|8.3@0=3#8.2@0=3#8.3.10>8.2.10|8.2@0=3#-#8.2.10>-",
